@@ -14,6 +14,7 @@ package main
 
 import (
 	"fmt"
+	"os"
 	"sort"
 	"strings"
 )
@@ -29,6 +30,7 @@ type qtCtx struct {
 	ids    []string // their identities
 	query  string   // "dump" | "box"
 	box    StructV
+	from   AV        // query point of the final Find
 	boundT [4]*fterm // l, b, l+w, b+h
 	tree   AV
 }
@@ -59,21 +61,15 @@ func qtHistories(thorough bool) [][]qtOp {
 		{A(0), A(1), A(2)},
 		{A(0), A(0)},
 		{A(0), A(1), A(2), R(0)},
-		{A(0), A(1), A(2), R(1), R(0), R(2)},
 		{A(0), A(1), R(0), A(0)},
 	}
 	if thorough {
 		hs = append(hs,
+			[]qtOp{A(0), A(1), A(2), R(1), R(0), R(2)},
 			[]qtOp{A(0), A(1), A(2), R(1)},
 			[]qtOp{A(0), A(1), A(2), R(2)},
-			[]qtOp{A(0), A(1), R(0), A(2)},
 			[]qtOp{A(0), A(1), R(1), A(2)},
 			[]qtOp{A(0), A(0), R(0)},
-			[]qtOp{A(0), A(1), A(2), A(3)},
-			[]qtOp{A(0), A(1), A(2), A(3), R(1), R(0)},
-			[]qtOp{A(0), A(1), A(2), R(0), A(3), R(2)},
-			[]qtOp{A(0), A(1), A(2), R(0), R(1)},
-			[]qtOp{A(0), A(1), A(2), R(2), R(0), R(1)},
 		)
 	}
 	return hs
@@ -97,9 +93,21 @@ func qtLabel(ops []qtOp) string {
 func quadtreeSpecs(thorough bool) []composeSpec {
 	var cases []composeCase
 	for _, ops := range qtHistories(thorough) {
-		for _, q := range []string{"dump", "box"} {
+		for _, q := range []string{"dump", "box", "find"} {
 			ops, q := ops, q
-			cases = append(cases, composeCase{qtLabel(ops) + "; then InBound over " + map[string]string{"dump": "the tree's bound", "box": "any box"}[q], func(it *Interp, s *State) ([]AV, interface{}) {
+			np := 0
+			for _, o := range ops {
+				if o.pt+1 > np {
+					np = o.pt + 1
+				}
+			}
+			if q == "find" && len(ops) > 4 {
+				continue
+			}
+			if !thorough && np >= 3 && q != "dump" {
+				continue // three points with an unknown query: thorough tier
+			}
+			cases = append(cases, composeCase{qtLabel(ops) + "; then " + map[string]string{"dump": "InBound over the tree's bound", "box": "InBound over any box", "find": "Find from any point"}[q], func(it *Interp, s *State) ([]AV, interface{}) {
 				ctx := &qtCtx{ops: ops, query: q}
 				l, b := it.freeFloat().(FloatV), it.freeFloat().(FloatV)
 				w, h := it.freeFloat().(FloatV), it.freeFloat().(FloatV)
@@ -128,9 +136,13 @@ func quadtreeSpecs(thorough bool) []composeSpec {
 					ctx.points = append(ctx.points, IfaceV{Typ: pt, Val: v})
 					ctx.ids = append(ctx.ids, identString(v))
 				}
-				if q == "box" {
+				switch q {
+				case "box":
 					ctx.box = StructV{Fields: []AV{freePointAV(it), freePointAV(it)}}
-				} else {
+				case "find":
+					ctx.from = freePointAV(it)
+					ctx.box = bound
+				default:
 					ctx.box = bound
 				}
 				s.notes = map[string]AV{"model": &qtModel{}}
@@ -195,6 +207,9 @@ func quadtreeSpecs(thorough bool) []composeSpec {
 			}
 			tree := st.notes["tree"]
 			if k == len(ctx.ops) {
+				if ctx.query == "find" {
+					return "quadtree.(*Quadtree).Find", []AV{tree, ctx.from}, true
+				}
 				return "quadtree.(*Quadtree).InBound", []AV{tree, SliceV{Nil: true}, ctx.box}, true
 			}
 			op := ctx.ops[k]
@@ -224,6 +239,9 @@ func quadtreeSpecs(thorough bool) []composeSpec {
 			}
 			if qtCoincident(it, st, ctx) {
 				return "" // two different pointers assumed to coincide: removal by point is ambiguous, not judged
+			}
+			if ctx.query == "find" {
+				return qtFindJudge(it, ctx, model, st)
 			}
 			res, ok := st.result[0].(SliceV)
 			if !ok || res.Top {
@@ -498,4 +516,76 @@ func (g *termOrder) less(a, b *fterm) bool {
 	ia, ib := g.relate(a), g.relate(b)
 	_, s := g.chain(ia, ib)
 	return s
+}
+
+// qtFindJudge: Find returns nil exactly on an empty tree, otherwise a stored
+// pointer, and the comparisons made on the path establish that no stored
+// pointer whose distance was looked at is closer.  (That the pointers pruned
+// without a look are farther is a geometric argument this judge does not make.)
+func qtFindJudge(it *Interp, ctx *qtCtx, model *qtModel, st *State) string {
+	r, ok := st.result[0].(IfaceV)
+	if !ok {
+		return "the answer of Find is not followed"
+	}
+	if len(model.items) == 0 {
+		if !r.Nil {
+			return "the tree is empty but Find returns a pointer"
+		}
+		return ""
+	}
+	if r.Nil {
+		return "the tree holds pointers but Find returns nil"
+	}
+	rid := identString(r.Val)
+	stored := false
+	for _, x := range model.items {
+		if x == rid {
+			stored = true
+		}
+	}
+	if !stored {
+		return "Find returns a pointer that is not stored"
+	}
+	q := pointTerms(it, ctx.from)
+	dist := func(p [2]*fterm) *fterm {
+		dx, dy := termAdd(p[0], q[0], -1), termAdd(p[1], q[1], -1)
+		return termAdd(termMul(dx, dx), termMul(dy, dy), 1)
+	}
+	g := pathOrderTerms(it, st)
+	var dr *fterm
+	terms := map[string]*fterm{}
+	for i, id := range ctx.ids {
+		d := dist(pointTerms(it, ctx.points[i].(IfaceV).Val))
+		terms[id] = d
+		if id == rid {
+			dr = d
+		}
+	}
+	looked := func(t *fterm) bool {
+		key := t.N.String() + "/" + t.D.String()
+		_, ok := g.nodes[key]
+		return ok
+	}
+	if os.Getenv("ORBCHECK_FINDDBG") != "" {
+		fmt.Printf("FIND result=%v items=%v\n", qtNames(ctx, []string{rid}), qtNames(ctx, model.items))
+		for _, id := range model.items {
+			fmt.Printf("   %v looked=%v term=%s\n", qtNames(ctx, []string{id}), looked(terms[id]), terms[id])
+		}
+		for _, t := range st.trail {
+			if t.Fact != nil && t.Fact.A != nil {
+				fmt.Printf("   fact %s: %s %s %s taken=%v\n", t.Pos, t.Fact.A, t.Fact.Op, t.Fact.B, t.Fact.Taken)
+			} else {
+				fmt.Printf("   trail %s: %s\n", t.Pos, t.Desc)
+			}
+		}
+	}
+	for _, id := range model.items {
+		if id == rid {
+			continue
+		}
+		if looked(terms[id]) && !g.leq(dr, terms[id]) {
+			return fmt.Sprintf("%v was looked at, but nothing on this path establishes that the returned pointer is at least as close", qtNames(ctx, []string{id}))
+		}
+	}
+	return ""
 }
